@@ -191,6 +191,11 @@ func run(c *Ctx) {
 		one(c, []byte(src), false, &s)
 	}
 	c.Dist["delicate-literal-and-operator-programs"] = len(dl)
+	eb := ElseBlockPrograms(c.Thorough())
+	for _, src := range eb {
+		one(c, []byte(src), true, &s)
+	}
+	c.Dist["else-block-shape-programs"] = len(eb)
 	n := 1200
 	if c.Thorough() {
 		n = 50000
